@@ -583,4 +583,85 @@ theorem scaledRotBatch_pos (detK : Mat3 ℝ → ℝ) (check : Bool) (rtol atol :
   cases res <;> rfl
 
 
+
+/-! ## exactly at gimbal lock -/
+
+set_option linter.unusedTactic false in
+set_option linter.unreachableTactic false in
+/-- exactly at gimbal lock (`sin pitch = t2 = ±1`) the singular-branch formulas (`roll = 0`, `pitch = ±π/2`,
+`yaw = −2·pm(t2)·atan2(x, w)`) reproduce the rotation exactly: `Rz(yaw)·Ry(pitch)·Rx(0) = R(p)` -/
+theorem eulerMat_SO3euler_gimbal (eps : ℝ) (heps : 0 ≤ eps) (p : Quat ℝ) (h : p.normSq = 1)
+    (hlock : 2 * (p.w * p.y - p.z * p.x) = 1 ∨ 2 * (p.w * p.y - p.z * p.x) = -1) :
+    eulerMat (SO3euler eps p) = SO3matrix p := by
+  have h' : p.x * p.x + p.y * p.y + p.z * p.z + p.w * p.w = 1 := h
+  have hT := eulerT_unit p h
+  -- modulus of w + i x
+  have hn : ‖(⟨p.w, p.x⟩ : ℂ)‖ = Real.sqrt (p.w * p.w + p.x * p.x) := by
+    rw [Complex.norm_def, Complex.normSq_mk]
+  rcases hlock with h1 | h1
+  · -- t2 = 1 : y = w, z = −x
+    have hyw : p.y = p.w := by nlinarith [sq_nonneg (p.w - p.y), sq_nonneg (p.x + p.z)]
+    have hzx : p.z = -p.x := by nlinarith [sq_nonneg (p.w - p.y), sq_nonneg (p.x + p.z)]
+    have hρ2 : p.w * p.w + p.x * p.x = 1 / 2 := by rw [hyw, hzx] at h'; linarith
+    have hρpos : 0 < Real.sqrt (p.w * p.w + p.x * p.x) := Real.sqrt_pos.mpr (by rw [hρ2]; norm_num)
+    have hz : (⟨p.w, p.x⟩ : ℂ) ≠ 0 := by
+      intro h0; rw [h0, norm_zero] at hn; linarith
+    have hreg : eulerRegular eps p = false := by
+      simp only [eulerRegular, hT, sabs_real, lt_real, k_real, Nat.cast_one, h1, abs_one, decide_eq_false_iff_not]
+      linarith
+    set ρ := Real.sqrt (p.w * p.w + p.x * p.x) with hρ
+    have hρρ : ρ * ρ = 1 / 2 := by rw [hρ, Real.mul_self_sqrt (by rw [hρ2]; norm_num), hρ2]
+    have hc : Real.cos (Complex.arg ⟨p.w, p.x⟩) = p.w / ρ := by rw [Complex.cos_arg hz, hn]
+    have hs : Real.sin (Complex.arg ⟨p.w, p.x⟩) = p.x / ρ := by rw [Complex.sin_arg, hn]
+    unfold eulerMat SO3euler rotX rotY rotZ
+    simp only [hreg, Bool.false_eq_true, if_false, hT, h1, k_real, Nat.cast_one, Nat.cast_zero, Nat.cast_ofNat,
+      sclamp_of_mem 1 (by norm_num) (le_refl _), sasin_real 1 (by simp), Real.arcsin_one, Real.cos_pi_div_two,
+      Real.sin_pi_div_two, Real.cos_zero, Real.sin_zero, sin_real, cos_real, atan2_real]
+    have hspm : spm (1 : ℝ) = 1 := by simp [spm]
+    rw [hspm]
+    have e2 : -(2 : ℝ) * 1 * Complex.arg ⟨p.w, p.x⟩ = -(2 * Complex.arg ⟨p.w, p.x⟩) := by ring
+    rw [e2, Real.cos_neg, Real.sin_neg, Real.cos_two_mul, Real.sin_two_mul, hc, hs]
+    have hne : ρ ≠ 0 := ne_of_gt hρpos
+    unfold SO3matrix
+    have hρsq : ρ ^ 2 = 1 / 2 := by rw [pow_two]; exact hρρ
+    ext <;> lie_unfold <;> simp only [hyw, hzx] <;> field_simp <;> (try simp only [hρsq]) <;>
+      first
+        | linear_combination (0 : ℝ) * hρ2
+        | linear_combination (1 : ℝ) * hρ2
+        | linear_combination (-1 : ℝ) * hρ2
+        | linear_combination (2 : ℝ) * hρ2
+        | linear_combination (-2 : ℝ) * hρ2
+  · -- t2 = −1 : y = −w, z = x
+    have hyw : p.y = -p.w := by nlinarith [sq_nonneg (p.w + p.y), sq_nonneg (p.x - p.z)]
+    have hzx : p.z = p.x := by nlinarith [sq_nonneg (p.w + p.y), sq_nonneg (p.x - p.z)]
+    have hρ2 : p.w * p.w + p.x * p.x = 1 / 2 := by rw [hyw, hzx] at h'; linarith
+    have hρpos : 0 < Real.sqrt (p.w * p.w + p.x * p.x) := Real.sqrt_pos.mpr (by rw [hρ2]; norm_num)
+    have hz : (⟨p.w, p.x⟩ : ℂ) ≠ 0 := by
+      intro h0; rw [h0, norm_zero] at hn; linarith
+    have hreg : eulerRegular eps p = false := by
+      simp only [eulerRegular, hT, sabs_real, lt_real, k_real, Nat.cast_one, h1, abs_neg, abs_one, decide_eq_false_iff_not]
+      linarith
+    set ρ := Real.sqrt (p.w * p.w + p.x * p.x) with hρ
+    have hρρ : ρ * ρ = 1 / 2 := by rw [hρ, Real.mul_self_sqrt (by rw [hρ2]; norm_num), hρ2]
+    have hc : Real.cos (Complex.arg ⟨p.w, p.x⟩) = p.w / ρ := by rw [Complex.cos_arg hz, hn]
+    have hs : Real.sin (Complex.arg ⟨p.w, p.x⟩) = p.x / ρ := by rw [Complex.sin_arg, hn]
+    unfold eulerMat SO3euler rotX rotY rotZ
+    simp only [hreg, Bool.false_eq_true, if_false, hT, h1, k_real, Nat.cast_one, Nat.cast_zero, Nat.cast_ofNat,
+      sclamp_of_mem (-1) (le_refl _) (by norm_num), sasin_real (-1) (by simp), Real.arcsin_neg_one, Real.cos_neg, Real.sin_neg,
+      Real.cos_pi_div_two, Real.sin_pi_div_two, Real.cos_zero, Real.sin_zero, sin_real, cos_real, atan2_real]
+    have hspm : spm (-1 : ℝ) = -1 := by simp [spm]
+    rw [hspm]
+    have e2 : -(2 : ℝ) * -1 * Complex.arg ⟨p.w, p.x⟩ = 2 * Complex.arg ⟨p.w, p.x⟩ := by ring
+    rw [e2, Real.cos_two_mul, Real.sin_two_mul, hc, hs]
+    have hne : ρ ≠ 0 := ne_of_gt hρpos
+    unfold SO3matrix
+    have hρsq : ρ ^ 2 = 1 / 2 := by rw [pow_two]; exact hρρ
+    ext <;> lie_unfold <;> simp only [hyw, hzx] <;> field_simp <;> (try simp only [hρsq]) <;>
+      first
+        | linear_combination (0 : ℝ) * hρ2
+        | linear_combination (1 : ℝ) * hρ2
+        | linear_combination (-1 : ℝ) * hρ2
+        | linear_combination (2 : ℝ) * hρ2
+        | linear_combination (-2 : ℝ) * hρ2
+
 end PP
